@@ -228,6 +228,9 @@ func runSort(line, ordF, itemsF string) core.Outcome {
 		if idxField(res2) != idxField(res) {
 			cls := "sort-cross-kind-order-dependent"
 			if len(items) > 20 {
+				cls = "order-dependent-output"
+			}
+			if len(items) > 20 {
 				cls += ":over-20-routes"
 			}
 			o.Failures = append(o.Failures, core.Failure{Case: line, Class: cls,
